@@ -228,7 +228,17 @@ pub fn prepare_loaded(sb: &Path, r: &mut Rng, allow_bad_files: bool) -> Prepared
     if r.chance(1, 2) {
         foreign_file_names(&src, r, &mut notes);
     }
-    let font = Font::load(&src).unwrap();
+    let font = match Font::load(&src) {
+        Ok(f) => f,
+        Err(e) => {
+            // a tree Font::save has just written must load; keep going with a second attempt so
+            // that the run reports this instead of dying
+            notes.push(format!("SOURCE-RELOAD-FAILED: a source just written by Font::save does not load: {}", format!("{:?}", e).chars().take(200).collect::<String>()));
+            let _ = std::fs::remove_dir_all(&src);
+            build_font(&rc).0.save(&src).unwrap();
+            Font::load(&src).unwrap()
+        }
+    };
     let mut shadow = Shadow::opened(&font, &comps("src.ufo"));
     // every file of the source's data/ and images/ (as the directory listing shows them, not as
     // the loaded store reports them) has to survive a save in place
@@ -773,7 +783,7 @@ pub fn case(seed: u64, idx: u64, out: &Path, verbose: bool) -> CaseOut {
     let run = run_save(&p, out, idx, &sb, &target_rel);
     // ------------------------------------------------------------ property oracle
     let expect = expected_refusal(&p, &run.before);
-    let mut why: Vec<String> = vec![];
+    let mut why: Vec<String> = p.notes.iter().filter(|n| n.starts_with("SOURCE-RELOAD-FAILED")).cloned().collect();
     if run.obs.1 == "PANIC" {
         why.push(format!("Font::save panicked; the file system changed: {}", snap_diff(&run.before, &run.after).join(", ")));
     }
